@@ -23,7 +23,7 @@ def worldOf (S : SchemaView) (D : Data) (ir : IRQuery) (args : List (Name × Val
 
 theorem knownSite_not_contract {s : String} (h : knownSite s = true) : isContractSite s = false := by
   simp only [knownSite, Bool.or_eq_true, beq_iff_eq] at h
-  rcases h with ((rfl | rfl) | rfl) | rfl <;> decide +kernel
+  rcases h with rfl | rfl <;> decide +kernel
 
 /-- What the invariant proof gives about an execution under the plain table adapter: the result
 is the same as under the contract-checking adapter, for which `interpret_safe` holds. -/
